@@ -56,6 +56,12 @@ func (nl *NamedMutex) Lock(name string) {
 func (nl *NamedMutex) Unlock(name string) {
 	nl.mu.Lock()
 	mu := nl.muMap[name]
+	if mu == nil {
+		// Nobody holds or waits for this name. Don't touch the maps (they are nil if Lock
+		// has never been called: writing to them would panic with nl.mu held for ever).
+		nl.mu.Unlock()
+		panic("namedmutex: Unlock of a name that is not locked")
+	}
 	nl.refMap[name]--
 	if nl.refMap[name] <= 0 {
 		delete(nl.muMap, name)
